@@ -2,6 +2,7 @@ package main
 
 import (
 	"fmt"
+	"reflect"
 	"sort"
 	"strings"
 
@@ -81,5 +82,104 @@ func runbCase(n int, f []string) {
 	}
 	emit("%s", withWatchdog(func() string {
 		return runOnceB(f[0], atoi(f[1]), int64(atoi(f[2])), atoi(f[3]), parsePairs(f[4]), parsePairs(f[5]), app)
+	}))
+}
+
+// runc: like `runb`, and for the variants whose speculative register state lives in the register alias
+// tables of risc.Context (MVP-6.3) the budget line also carries rat=..: for every register the value
+// registerRead(ctx, Forward{}, reg, 0) would return at that moment (newest slot of transactionRAT, else
+// newest slot of committedRAT, else 0), read through reflection (the tables are unexported).
+// Used by bin/tie_m63.py on hanging runs.
+func init() {
+	commands["runc"] = runcCase
+	commandsFlushEach["runc"] = true
+}
+
+// ratNewest returns key -> newest slot of the RAT stored in the unexported field `name` of ctx;
+// pick selects the int32 of a slot (the slot itself, or its field `value`).
+func ratNewest(ctx *risc.Context, name string, pick func(reflect.Value) int64) map[int]int64 {
+	out := map[int]int64{}
+	rat := reflect.ValueOf(ctx).Elem().FieldByName(name)
+	if !rat.IsValid() || rat.IsNil() {
+		return out
+	}
+	r := rat.Elem()
+	idx := r.FieldByName("idx")
+	values := r.FieldByName("values")
+	it := idx.MapRange()
+	for it.Next() {
+		k := it.Key()
+		slots := values.MapIndex(k)
+		out[int(k.Uint())] = pick(slots.Index(int(it.Value().Int())))
+	}
+	return out
+}
+
+func fmtRat(ctx *risc.Context) string {
+	committed := ratNewest(ctx, "committedRAT", func(v reflect.Value) int64 { return v.Int() })
+	transaction := ratNewest(ctx, "transactionRAT", func(v reflect.Value) int64 { return v.FieldByName("value").Int() })
+	var parts []string
+	for reg := 1; reg < 32; reg++ {
+		v, ok := transaction[reg]
+		if !ok {
+			v = committed[reg]
+		}
+		if v != 0 {
+			parts = append(parts, fmt.Sprintf("%d:%d", reg, v))
+		}
+	}
+	return strings.Join(parts, ",")
+}
+
+func runOnceC(variant string, par int, budget int64, memsize int, regs, meminit [][2]int, app risc.Application) (res string) {
+	var ctx *risc.Context
+	var init []int8
+	defer func() {
+		if r := recover(); r != nil {
+			if ctx != nil {
+				risc.VerifUnwatch(ctx)
+			}
+			if b, ok := r.(risc.VerifBudgetExceeded); ok {
+				rs := map[risc.RegisterType]int32{}
+				for k, v := range ctx.Registers {
+					if k != risc.Zero {
+						rs[k] = v
+					}
+				}
+				res = fmt.Sprintf("budget ticks=%d r=%s m=%s pw=%s pr=%s rat=%s", b.Ticks, fmtRegs(rs), fmtMemDiff(ctx.Memory, init),
+					fmtCounts(ctx.PendingWriteRegisters), fmtCounts(ctx.PendingReadRegisters), fmtRat(ctx))
+				return
+			}
+			res = "panic"
+		}
+	}()
+	m := newMachine(variant, par, memsize)
+	ctx = m.Context()
+	for _, kv := range regs {
+		ctx.Registers[risc.RegisterType(kv[0])] = int32(kv[1])
+	}
+	for _, kv := range meminit {
+		ctx.Memory[kv[0]] = int8(kv[1])
+	}
+	init = make([]int8, len(ctx.Memory))
+	copy(init, ctx.Memory)
+	risc.VerifWatch(ctx, budget, nil)
+	cycles, err := m.Run(app)
+	ticks := risc.VerifUnwatch(ctx)
+	if err != nil {
+		return "err " + errClass(err)
+	}
+	return fmt.Sprintf("ok c=%d r=%s m=%s t=%d", cycles, fmtRegs(ctx.Registers), fmtMemDiff(ctx.Memory, init), ticks)
+}
+
+func runcCase(n int, f []string) {
+	asm := strings.ReplaceAll(f[6], "|", "\n")
+	app, err := risc.Parse(asm)
+	if err != nil {
+		emit("parse-error %v", err)
+		return
+	}
+	emit("%s", withWatchdog(func() string {
+		return runOnceC(f[0], atoi(f[1]), int64(atoi(f[2])), atoi(f[3]), parsePairs(f[4]), parsePairs(f[5]), app)
 	}))
 }
